@@ -12,6 +12,7 @@ import CogentModel.Proofs.FeatureAdd
 import CogentModel.Model.FeatureProject
 import CogentModel.Proofs.FeatureProject
 import CogentModel.Proofs.FeatureHistory
+import CogentModel.Proofs.FeatureContig
 /-! # C04 — annotations keep denoting the same residues through every view
 
 The model mirrors `make_feature` as it is since commit 11fcfbb18 (spans that only touch a view
@@ -454,6 +455,38 @@ theorem single_span_lost_spans_add_up (L s e : Int) (minus : Bool) (hL : 0 < L) 
 
 -- the former finding: feature (2,12) on the view [4:9] is now [-2-, 0:5, -3-]
 example : makeFeature 5 false false [(-2, 8)] = .ok { spans := [.lost 2, .span 0 5, .lost 3], reversed := false } := by
+  decide
+
+/-- `feature.get_slice(allow_gaps=True)` (the contiguous form, `parent[fmap.start : fmap.end]`): for a feature with ONE
+retained span it is the same residues as `get_slice()`, on either strand, on any view. -/
+theorem contiguous_slice_single_span (comp : Char → Char) (s : SeqWrap.Seq) (f : Feat) (a b : Int)
+    (h : realOf f.spans = [(a, b)]) : getSliceContig comp s f = getSlice comp s f := by
+  unfold getSliceContig getSlice
+  rw [contigIdx_single f a b h]
+
+/-- The contiguous form reads the view from the start of the FIRST retained span to the end of the LAST one (spans as
+`make_feature` leaves them: non-empty, ordered, disjoint). -/
+theorem contiguous_slice_hull (f : Feat) (p : Int × Int) (r : List (Int × Int)) (h : realOf f.spans = p :: r)
+    (hs : (p :: r).Pairwise (fun a b => a.2 ≤ b.1)) (hp : ∀ q ∈ p :: r, q.1 < q.2) :
+    contigIdx f = irange p.1 ((p :: r).getLast (List.cons_ne_nil _ _)).2 := by
+  unfold contigIdx
+  rw [h]
+  simp only []
+  rw [mapStart_sorted p r hs hp, mapEnd_sorted p r hs hp]
+
+/-- The contiguous form is read on the feature's strand: for a feature reversed relative to its view it is the reverse
+complement of what the same map gives un-reversed (`_do_seq_slice` applies to both forms of `get_slice`). -/
+theorem contiguous_slice_on_feature_strand (comp : Char → Char) (s : SeqWrap.Seq) (m : List MSpan) :
+    getSliceContig comp s { spans := m, reversed := true } =
+      ((getSliceContig comp s { spans := m, reversed := false }).reverse).map comp := by
+  simp [getSliceContig, contigIdx]
+
+example :
+    let s : SeqWrap.Seq := { parent := "ACGTACGTACGTACGT".toList, v := { start := 4, stop := 9, step := 1, offset := 0, seqLen := 16 }, nucleic := true }
+    let comp : Char → Char := fun c => if c = 'A' then 'T' else if c = 'T' then 'A' else if c = 'C' then 'G' else if c = 'G' then 'C' else c
+    (match featureOnView s.v true [(1, 6), (7, 12)] with
+      | .ok f => getSlice comp s f == "TAGT".toList && getSliceContig comp s f == "TACGT".toList
+      | .error _ => false) = true := by
   decide
 
 end CogentModel.C04
